@@ -423,7 +423,7 @@ type fftPkgCfg struct {
 }
 
 func fftPkg(name, dir, base string, kers ...int) fftPkgCfg {
-	return fftPkgCfg{towerPkg{name: name, dir: dir, baseDir: base, ext: "fft", files: []string{"fft.go", "kernel_purego.go"}, specRecv: "Domain"}, kers}
+	return fftPkgCfg{towerPkg{name: name, dir: dir, baseDir: base, ext: "fft", files: []string{"fft.go", "kernel_purego.go", "bitreverse.go"}, specRecv: "Domain"}, kers}
 }
 
 var fftPkgs = []fftPkgCfg{
